@@ -23,6 +23,14 @@ CLAIMED = {
     },
 }
 
+CLAIMED["C05"] = {
+    "text": "Proof over the reals that every Jacobian returned by inverse/compose/act/exp/log of every group is the right-Jacobian "
+            "(D T(f)[du] = T(f) hat(J du), plain differences for vector arguments/results) on all generic paths, by forward-mode differentiation "
+            "of the traced DAG and exact normal form; on small-angle paths the residual is bounded by 1e-6*scale for all inputs of the path (interval bound).",
+    "note": _REAL + "A-TRIG, A-SQRT, A-ATAN2, A-TAYLOR axioms for the libm atoms. Not decided: floating-point cancellation.",
+    "technique": "contracts on the real templates; per-path VCs by symbolic-scalar execution; forward-mode differentiation + polynomial normal form; interval bound on small-angle paths",
+}
+
 NOT_APPLICABLE = {
     "C14": "quantifies over thread schedules; contract verification of one sequential call cannot express or decide data-race freedom (no thread model in any installed deductive back end for this C++ code) - see DESIGN.md section 5",
     "C19": "the oracle is the compiler's accept/reject verdict over a matrix of client programs, not a pre/postcondition of any function - see DESIGN.md section 5",
